@@ -740,6 +740,7 @@ def verify(cname, cfg, timeout_ms=20000, seed=0, repo_src=None, samples=0):
             work.extend(I.ctx.pending)
             continue
         except Untranslatable as u:
+            res.executed |= I.executed
             res.untranslatable.append({"config": cid, "path": "".join("T" if d else "F" for d in I.ctx.trace), "what": str(u),
                                        "stack": list(I.stack)})
             work.extend(I.ctx.pending)
